@@ -69,6 +69,14 @@ def run(repo, rep, tier):
         rep.ok("R-C18-1", f"{c.module.relpath} {c.name}", f"{len(c.methods)} methods, {nwrites} attribute stores examined",
                "no caching decorator; stores classified above")
 
+    # Partition is not registered with xarray, but SpecDataset._wrapper evaluates the `partition` property ONCE and binds the object on the
+    # cached Dataset accessor (finding F-C18-b), so a Partition lives as long as the accessor: anything one of its methods stores on
+    # `self` at call time is seen by every later call made through ds.spec.partition.
+    part = repo.cls("wavespectra.partition.partition.Partition")
+    for f_, ln_, fn_, cons_, why_, anch_ in partition_state(repo):
+        rep.fail("R-C18-1", f_, ln_, fn_, cons_, why_, anchor=anch_)
+    rep.ok("R-C18-1", f"{part.module.relpath} Partition", f"{len(part.methods)} methods", "no method other than __init__ stores on self")
+
     # ---- R-C18-2 ------------------------------------------------------------------------------
     from .c17 import is_entry
     entries = [fi for fi in repo.all_funcs() if is_entry(fi)]
@@ -189,6 +197,30 @@ def written_mutable_defaults(repo, eng):
                 effs = [e for (r, rp), e in eng.summ[fi.qualname].effects.items() if r == f"p:{pname}"]
                 if effs:
                     out.append((fi, pname, effs[0]))
+    return out
+
+
+def partition_state(repo):
+    """Call-time stores on the Partition object -> [(file, line, function, construct, why, anchor)]."""
+    part = repo.cls("wavespectra.partition.partition.Partition")
+    out = []
+    for mname, fi in part.methods.items():
+        if mname == "__init__":
+            continue
+        for n in ast.walk(fi.node):
+            tg = n.targets if isinstance(n, ast.Assign) else [n.target] if isinstance(n, (ast.AugAssign, ast.AnnAssign)) else []
+            for t in tg:
+                for x in ast.walk(t):
+                    if isinstance(x, ast.Attribute) and isinstance(x.value, ast.Name) and x.value.id == "self" and isinstance(x.ctx, ast.Store):
+                        out.append((fi.file, n.lineno, fi.qualname, ast.unparse(n)[:100],
+                                    f"Partition.{mname} stores state on the partition object at call time (self.{x.attr}): the object is bound once on the "
+                                    "cached Dataset accessor, so later calls through ds.spec.partition start from what this call left behind",
+                                    f"Partition:instance-store:{x.attr}"))
+                    elif isinstance(x, ast.Subscript) and isinstance(x.value, ast.Attribute) and isinstance(x.value.value, ast.Name) and x.value.value.id == "self" \
+                            and isinstance(x.ctx, ast.Store) and x.value.attr.startswith("_"):
+                        out.append((fi.file, n.lineno, fi.qualname, ast.unparse(n)[:100],
+                                    f"Partition.{mname} fills a private container on the partition object at call time (self.{x.value.attr}[..]): a memo that "
+                                    "outlives in-place edits of the spectra", f"Partition:instance-store:{x.value.attr}"))
     return out
 
 
